@@ -77,6 +77,7 @@ func ruleObjStmIndexGuard(c *eng.Ctx) {
 		return
 	}
 	n := 0
+	evN, evBad, evSkipped := -1, "", ""
 	for _, h := range eng.Cluster(fn, 2) {
 		eng.Instrs(h, false, func(in ssa.Instruction) {
 			ia, ok := in.(*ssa.IndexAddr)
@@ -150,6 +151,16 @@ func ruleObjStmIndexGuard(c *eng.Ctx) {
 					}
 				})
 				ok2 = sites > 0 && all
+			}
+			if !ok2 {
+				// the comparison may sit in a validating helper (if err := os.checkIndex(i); err != nil { return }): decided by evaluation
+				if evN < 0 {
+					evN, evBad, evSkipped = objStmEvaluated(c)
+				}
+				if evSkipped == "" && evBad == "" && evN > 0 {
+					c.Ok(R, fmt.Sprintf("%s#offsets-index%d", eng.FuncName(h), n), ia.Pos(), fmt.Sprintf("the comparison is not in this function: %d calls with tables shorter than /N evaluated", evN))
+					return
+				}
 			}
 			c.Check(ok2, R, fmt.Sprintf("%s#offsets-index%d", eng.FuncName(h), n), ia.Pos(), "guarded by the length of the indexed table", "the offset table ("+table+") is indexed without comparing the index with its length (or the length of a slice filled in lockstep with it): after a header that failed half way the table is shorter than /N and the access panics")
 		})
